@@ -41,7 +41,7 @@ struct Run : ContBase {
     FILE *devnull = nullptr;
     std::string tmpfile;
     int nt = 0, removed_in_walk = 0, sort_moved_equal = 0, loads = 0;
-    int nt_refused = 0, lookups_in_walk = 0, loads_plain_empty = 0, loads_no_final_newline = 0;
+    int nt_refused = 0, lookups_in_walk = 0, loads_plain_empty = 0, loads_no_final_newline = 0, loads_nothing_into_nonempty = 0;
 
     Run(Src &s_, Ctx &c_, bool scr, bool ret) : ContBase(s_, c_, scr, ret, "listtbl") {}
     ~Run() { if (t) qlisttbl_free(t); if (devnull) fclose(devnull); if (!tmpfile.empty()) unlink(tmpfile.c_str()); }
@@ -305,17 +305,20 @@ struct Run : ContBase {
         if (s.chance(1, 3) && !doc.empty() && !lastnl) { size_t want_sz = ((doc.size() + 1 + 15 - 8) / 16) * 16 + 8; while (doc.size() + 1 < want_sz) doc.insert(doc.begin(), '\n'); }
         if (tmpfile.empty()) { const char *td = getenv("TMPDIR"); tmpfile = std::string(td ? td : "/dev/shm") + "/vf-listtbl-" + std::to_string(getpid()) + ".txt"; }
         { FILE *f = fopen(tmpfile.c_str(), "wb"); if (!f) throw CaseStop{"cannot write temp file"}; if (!doc.empty()) fwrite(doc.data(), 1, doc.size(), f); fclose(f); }
+        // half of the loads go into the live table (whatever it holds - load appends), the others into a fresh one
+        bool live = s.boolean();
         bool sameopts = s.boolean();
         Model tm; tm.o = sameopts ? m.o : Opts{false, false, false, false};
-        qlisttbl_t *t2 = qlisttbl(optbits(tm.o));
+        qlisttbl_t *t2 = live ? t : qlisttbl(optbits(tm.o));
         if (!t2) c.fail(FUNC, "listtbl:ctor", "qlisttbl() returned NULL");
-        struct G { qlisttbl_t *x; ~G() { qlisttbl_free(x); } } g{t2};
+        struct G { qlisttbl_t *x; ~G() { if (x) qlisttbl_free(x); } } g{live ? nullptr : t2};
         errno = poison;
         ssize_t n = qlisttbl_load(t2, tmpfile.c_str(), sep, false);
-        c.op("load(sep='%c') of a hand-written file: %zu entries in %d line(s), last line %s a newline: %s", sep, want.size(), nl, lastnl ? "ends with" : "WITHOUT", hexs(doc, 120).c_str());
-        for (auto &e : want) tm.put(e, true);
+        c.op("load(sep='%c') of a hand-written file into %s: %zu entries in %d line(s), last line %s a newline: %s", sep, live ? strf("the live table (%zu entries)", m.v.size()).c_str() : "a fresh table", want.size(), nl, lastnl ? "ends with" : "WITHOUT", hexs(doc, 120).c_str());
         seei((long)n);
-        if (doc.empty()) { if (n > 0) c.fail(FUNC, "listtbl:load-count", "load() of an empty file returned %zd", n); return; }   // (an empty file may be reported as 0 or as failure)
+        if (doc.empty()) { if (n > 0) c.fail(FUNC, "listtbl:load-count", "load() of an empty file returned %zd", n); return; }   // (an empty file may be reported as 0 or as failure; the caller's comparison covers the live table)
+        if (live) { for (auto &e : want) m.put(e, true); if (want.empty() && !m.v.empty()) loads_nothing_into_nonempty++; if (n != (ssize_t)want.size()) c.fail(FUNC, "listtbl:load-count", "load() returned %zd, the file holds %zu entries", n, want.size()); loads++; if (!lastnl) loads_no_final_newline++; return; }   // compared by the caller as after every operation
+        for (auto &e : want) tm.put(e, true);
         full_compare(t2, tm, "table loaded from a hand-written file");
         if (n != (ssize_t)want.size()) c.fail(FUNC, "listtbl:load-count", "load() returned %zd, the file holds %zu entries", n, want.size());
         loads++; if (!lastnl) loads_no_final_newline++;
@@ -371,6 +374,7 @@ struct Run : ContBase {
         if (loads) c.tag("case_with_save_load");
         if (loads_plain_empty) c.tag("case_with_unencoded_save_load_of_an_empty_value");
         if (loads_no_final_newline) c.tag("case_with_load_of_a_file_without_final_newline");
+        if (loads_nothing_into_nonempty) c.tag("case_with_load_of_an_entryless_file_into_a_nonempty_table");
         if (nt_refused) c.tag("case_with_refused_call_on_present_key");
         if (lookups_in_walk) c.tag("case_with_lookups_inside_a_walk");
         if (removed_in_walk) c.tag("case_with_removal_in_walk"); if (sort_moved_equal) c.tag("case_with_sort_moving_equal_keys");
